@@ -5,7 +5,16 @@
   * `c16_complete`, `c16_one_entry`  — entries ↔ exposed fields, position by position; each entry lists
     exactly its field's option strings (also for ANY iteration order `π` of a set, had one been
     used: `c16_complete_with`); no option string is listed by two entries.
-  * `c16_hidden`, `c16_hidden_no_entry` — `cmd=False` / `init=False` fields contribute nothing.
+  * `c16_one_entry` — … negative flags of `bool` fields included: no listed string belongs to two
+    entries or is `-h` / `--help`.  `Produced` ("the help is produced or conflict resolution refuses") is
+    FALSE today: `c16_produced_witness` (field `h`), `c16_produced_witness_negflag` (`flag: bool` next to
+    `noflag`) — both `argparse.ArgumentError`, open findings; `c16_produced_partial` otherwise.
+  * `c16_hidden`, `c16_hidden_no_entry` — `cmd=False` / `init=False` fields and members (with their whole
+    subtree) contribute nothing.  NOTE: `c16_hidden`, `c16_perm_invariant`, `c16_order_deterministic` are
+    laws of the MODEL; that the code skips such fields before anything else and consults no
+    hash-ordered container is what the correspondence check samples (fresh interpreters, several seeds).
+  * `NoSideEffectDashHelp` — the `--help` FLAG route: FALSE when only one of the two command lines names a
+    config file (`c16_no_side_effect_dash_help_witness`), `c16_no_side_effect_dash_help_partial` otherwise.
   * `c16_accurate`, priority lemmas — the help column ends in the effective default.
   * `c16_perm_invariant`, `c16_order_deterministic` (reproducibility across hash seeds, FULL since fix
     4849cc7) — every entry shows `Naming.optionStrings` of its field: shortest first, equal lengths
@@ -239,22 +248,22 @@ theorem setup_ok_resolve (cfg : Cfg) (mode : CR) (res : List Str) (recs recs' : 
 /-- the wrappers `entries` works on -/
 def wrappers (forest : Forest) : List XLeaf := xleaves (flatForest forest)
 
-/-- the general form of `c16_complete`, for any ordering `pos` of each field's option strings -/
-theorem c16_complete_with (cfg : Cfg) (mode : CR) (forest : Forest) (src : Sources)
-    (pos : XLeaf → Str → List Str) (hpos : PosOK cfg pos) (es : List Entry)
-    (h : entriesWith cfg mode forest src pos = .ok es) :
+theorem entriesWith_eq (cfg : Cfg) (mode : CR) (forest : Forest) (src : Sources)
+    (pos : XLeaf → Str → List Str) :
+    entriesWith cfg mode forest src pos =
+      match setup cfg mode reserved ((wrappers forest).map XLeaf.rec0) with
+      | .ok recs => finish (mkAll src pos (wrappers forest) recs)
+      | .conflictResolutionError => Out.conflictResolutionError
+      | .assertionError => Out.assertionError
+      | .argumentError => Out.argumentError := rfl
+
+/-- what a produced help text rests on: resolution succeeded, every `add_argument` call was built,
+    and none of them hit an option string that was already taken -/
+theorem entriesWith_ok (cfg : Cfg) (mode : CR) (forest : Forest) (src : Sources)
+    (pos : XLeaf → Str → List Str) (es : List Entry) (h : entriesWith cfg mode forest src pos = .ok es) :
     ∃ recs, setup cfg mode reserved ((wrappers forest).map XLeaf.rec0) = .ok recs ∧
-      recs.length = (wrappers forest).length ∧ es.length = (wrappers forest).length ∧
-      ∀ (i : Nat) (x : XLeaf), (wrappers forest)[i]? = some x →
-        ∃ (r : FieldRec) (e : Entry), recs[i]? = some r ∧ es[i]? = some e ∧ Lists cfg src x r.pref e := by
-  unfold entriesWith entriesOfGroups at h
-  simp only at h
-  change (match setup cfg mode reserved ((wrappers forest).map XLeaf.rec0) with
-    | .ok recs => (match mkAll src pos (wrappers forest) recs with
-        | some es => Out.ok es | none => Out.notImplementedError)
-    | .conflictResolutionError => Out.conflictResolutionError
-    | .assertionError => Out.assertionError
-    | .argumentError => Out.argumentError) = Out.ok es at h
+      mkAll src pos (wrappers forest) recs = some es ∧ argClash reserved es = false := by
+  rw [entriesWith_eq] at h
   cases hs : setup cfg mode reserved ((wrappers forest).map XLeaf.rec0) with
   | conflictResolutionError => rw [hs] at h; cases h
   | assertionError => rw [hs] at h; cases h
@@ -266,21 +275,35 @@ theorem c16_complete_with (cfg : Cfg) (mode : CR) (forest : Forest) (src : Sourc
     | none => rw [hm] at h; cases h
     | some es' =>
       rw [hm] at h
-      simp only [Out.ok.injEq] at h
-      subst h
-      have hlen : recs.length = (wrappers forest).length := by
-        have := C03.c03_frame_length cfg mode _ recs (setup_ok_resolve _ _ _ _ _ hs)
-        simpa using this
-      obtain ⟨hl, hi⟩ := mkAll_spec src pos _ _ _ hm
-      refine ⟨recs, rfl, hlen, by simp [hl, hlen], ?_⟩
-      intro i x hx
-      have hi' : i < recs.length := by
-        rw [hlen]
-        rcases Nat.lt_or_ge i (wrappers forest).length with h | h
-        · exact h
-        · rw [List.getElem?_eq_none h] at hx; cases hx
-      obtain ⟨e, h1, h2⟩ := hi i x recs[i] hx (List.getElem?_eq_getElem hi')
-      exact ⟨recs[i], e, List.getElem?_eq_getElem hi', h1, mkEntry_lists cfg src pos hpos x _ e h2⟩
+      simp only [finish] at h
+      split at h
+      · cases h
+      · rename_i hc
+        cases h
+        exact ⟨recs, rfl, hm, by simpa using hc⟩
+
+/-- the general form of `c16_complete`, for any ordering `pos` of each field's option strings -/
+theorem c16_complete_with (cfg : Cfg) (mode : CR) (forest : Forest) (src : Sources)
+    (pos : XLeaf → Str → List Str) (hpos : PosOK cfg pos) (es : List Entry)
+    (h : entriesWith cfg mode forest src pos = .ok es) :
+    ∃ recs, setup cfg mode reserved ((wrappers forest).map XLeaf.rec0) = .ok recs ∧
+      recs.length = (wrappers forest).length ∧ es.length = (wrappers forest).length ∧
+      ∀ (i : Nat) (x : XLeaf), (wrappers forest)[i]? = some x →
+        ∃ (r : FieldRec) (e : Entry), recs[i]? = some r ∧ es[i]? = some e ∧ Lists cfg src x r.pref e := by
+  obtain ⟨recs, hs, hm, _⟩ := entriesWith_ok cfg mode forest src pos es h
+  · have hlen : recs.length = (wrappers forest).length := by
+      have := C03.c03_frame_length cfg mode _ recs (setup_ok_resolve _ _ _ _ _ hs)
+      simpa using this
+    obtain ⟨hl, hi⟩ := mkAll_spec src pos _ _ _ hm
+    refine ⟨recs, hs, hlen, by simp [hl, hlen], ?_⟩
+    intro i x hx
+    have hi' : i < recs.length := by
+      rw [hlen]
+      rcases Nat.lt_or_ge i (wrappers forest).length with h | h
+      · exact h
+      · rw [List.getElem?_eq_none h] at hx; cases hx
+    obtain ⟨e, h1, h2⟩ := hi i x recs[i] hx (List.getElem?_eq_getElem hi')
+    exact ⟨recs[i], e, List.getElem?_eq_getElem hi', h1, mkEntry_lists cfg src pos hpos x _ e h2⟩
 
 /-- **C16 (complete).** For any parser configuration, any forest of registrations and any default
     sources: when `--help` can be produced at all, its entries correspond position by position to
@@ -322,10 +345,9 @@ theorem mem_opts_iff (cfg : Cfg) (r : FieldRec) (s : Str) :
   simp only [FieldRec.opts, optionStrings, hp, Bool.false_eq_true, if_false]
   rw [(sortByLen_perm _).mem_iff, mem_dedup]
 
-/-- **C16 (exactly one entry).** Two different entries never list the same option string of
-    their fields: an option string shown by `--help` identifies one entry, hence one field of
-    one destination (through C03's uniqueness of owners after conflict resolution). -/
-theorem c16_one_entry (cfg : Cfg) (mode : CR) (forest : Forest) (recs : List FieldRec)
+/-- two different fields never GENERATE the same option string (C03's uniqueness of owners after
+    conflict resolution); the negative flags of `bool` fields are covered by `c16_one_entry` -/
+theorem c16_positive_disjoint (cfg : Cfg) (mode : CR) (forest : Forest) (recs : List FieldRec)
     (hs : setup cfg mode reserved ((wrappers forest).map XLeaf.rec0) = .ok recs)
     (i j : Nat) (hij : i ≠ j) (x y : XLeaf) (ri rj : FieldRec)
     (hx : (wrappers forest)[i]? = some x) (hy : (wrappers forest)[j]? = some y)
@@ -336,6 +358,252 @@ theorem c16_one_entry (cfg : Cfg) (mode : CR) (forest : Forest) (recs : List Fie
   have e2 := resolved_fw cfg mode _ recs hres j y rj hy hrj
   exact C03.c03_disjoint cfg mode _ recs hres i j ri rj hri hrj hij s
     ((mem_opts_iff cfg ri s).mpr (e1 ▸ hsi)) ((mem_opts_iff cfg rj s).mpr (e2 ▸ hsj))
+
+
+/-! ### every listed string — negative flags included — belongs to one entry -/
+
+theorem argClash_false (seen : List Str) : ∀ (es : List Entry), argClash seen es = false →
+    ∀ (i : Nat) (e : Entry), es[i]? = some e →
+      (∀ s ∈ e.opts, s ∉ seen) ∧
+      ∀ (j : Nat) (e' : Entry), j < i → es[j]? = some e' → ∀ s ∈ e.opts, s ∉ e'.opts
+  | [], _, i, e, hi => by simp at hi
+  | e0 :: es, h, i, e, hi => by
+    simp only [argClash, Bool.or_eq_false_iff, List.any_eq_false] at h
+    obtain ⟨h0, hrest⟩ := h
+    have ih := argClash_false (seen ++ e0.opts) es hrest
+    cases i with
+    | zero =>
+      simp only [List.getElem?_cons_zero, Option.some.injEq] at hi
+      subst hi
+      exact ⟨fun s hs => by simpa using h0 s hs, fun j e' hj => absurd hj (Nat.not_lt_zero _)⟩
+    | succ k =>
+      simp only [List.getElem?_cons_succ] at hi
+      obtain ⟨hseen, hprev⟩ := ih k e hi
+      refine ⟨fun s hs hin => hseen s hs (List.mem_append_left _ hin), ?_⟩
+      intro j e' hj hj' s hs
+      cases j with
+      | zero =>
+        simp only [List.getElem?_cons_zero, Option.some.injEq] at hj'
+        subst hj'
+        exact fun hin => hseen s hs (List.mem_append_right _ hin)
+      | succ m =>
+        exact hprev m e' (Nat.lt_of_succ_lt_succ hj) (by simpa using hj') s hs
+
+/-- **C16 (exactly one entry).** Whenever `--help` is produced, no option string — the fields' own
+    strings AND the negative flags `BooleanOptionalAction` adds — is listed by two different
+    entries, and none is `-h` / `--help`: every string shown identifies one entry, hence one field
+    of one destination.  (Where the code would violate this — `flag: bool` next to a field named
+    `noflag` — it produces no help at all: `c16_produced_witness_negflag`.) -/
+theorem c16_one_entry (cfg : Cfg) (mode : CR) (forest : Forest) (src : Sources) (es : List Entry)
+    (h : entries cfg mode forest src = .ok es) (i j : Nat) (hij : i ≠ j) (a b : Entry)
+    (hi : es[i]? = some a) (hj : es[j]? = some b) (s : Str) (hs : s ∈ a.opts) :
+    s ∉ b.opts ∧ s ∉ reserved := by
+  obtain ⟨_, _, _, hc⟩ := entriesWith_ok cfg mode forest src (positives cfg) es h
+  have ha := argClash_false reserved es hc i a hi
+  refine ⟨?_, ha.1 s hs⟩
+  rcases Nat.lt_or_gt_of_ne hij with hlt | hgt
+  · intro hsb
+    exact (argClash_false reserved es hc j b hj).2 i a hlt hi s hsb hs
+  · exact ha.2 j b hgt hj s hs
+
+/-! ### when is the help produced at all -/
+
+theorem dashFor_head (x : Str) : (dashFor x).head? = some '-' := by
+  unfold dashFor; split <;> rfl
+
+theorem aliasPair_head (pref a : Str) : (aliasPair pref a).1.head? = some '-' := by
+  unfold aliasPair
+  split
+  · rfl
+  · rfl
+  · exact dashFor_head _
+
+theorem head_append {l m : Str} {c : Char} (h : l.head? = some c) : (l ++ m).head? = some c := by
+  cases l with
+  | nil => cases h
+  | cons x xs => simpa using h
+
+theorem basePairs_head (cfg : Cfg) (fw : FW) (p : Str × Str) (hp : p ∈ basePairs cfg fw) :
+    p.1.head? = some '-' := by
+  simp only [basePairs, List.mem_append, List.mem_map] at hp
+  rcases hp with (⟨c, _, rfl⟩ | h2) | ⟨a, _, rfl⟩
+  · exact dashFor_head _
+  · split at h2
+    · simp only [List.mem_map] at h2
+      obtain ⟨c, _, rfl⟩ := h2
+      rfl
+    · cases h2
+  · exact aliasPair_head _ _
+
+theorem extraPairs_head (cfg : Cfg) (fw : FW) (p : Str × Str) (hp : p ∈ extraPairs cfg fw) :
+    p.1.head? = some '-' := by
+  unfold extraPairs at hp
+  split at hp
+  · simp only [List.mem_map] at hp
+    obtain ⟨q, _, rfl⟩ := hp
+    exact dashFor_head _
+  · cases hp
+
+/-- every generated option string starts with a dash -/
+theorem optionList_head (cfg : Cfg) (fw : FW) (hpos : fw.positional = false) (s : Str)
+    (hs : s ∈ optionList cfg fw) : s.head? = some '-' := by
+  simp only [optionList, hpos, Bool.false_eq_true, if_false, List.mem_map, List.mem_append] at hs
+  obtain ⟨p, hp, rfl⟩ := hs
+  rcases hp with hp | hp
+  · exact head_append (basePairs_head cfg fw p hp)
+  · exact head_append (extraPairs_head cfg fw p hp)
+
+theorem splitOnChar_ne_nil (sep : Char) : ∀ s : Str, splitOnChar sep s ≠ []
+  | [] => by simp [splitOnChar]
+  | c :: cs => by
+    simp only [splitOnChar]
+    split
+    · simp
+    · split <;> simp
+
+theorem splitOnChar_two (sep : Char) : ∀ s : Str, sep ∈ s → ∃ a b r, splitOnChar sep s = a :: b :: r
+  | [], h => by cases h
+  | c :: cs, h => by
+    simp only [splitOnChar]
+    by_cases hc : c = sep
+    · simp only [hc, if_true]
+      cases hsp : splitOnChar sep cs with
+      | nil => exact absurd hsp (splitOnChar_ne_nil sep cs)
+      | cons b r => exact ⟨[], b, r, rfl⟩
+    · have hm : sep ∈ cs := by
+        rcases List.mem_cons.mp h with h | h
+        · exact absurd h.symm hc
+        · exact h
+      obtain ⟨a, b, r, he⟩ := splitOnChar_two sep cs hm
+      simp only [hc, if_false, he]
+      exact ⟨c :: a, b, r, rfl⟩
+
+/-- `BooleanOptionalAction` can build the negative of every string that starts with a dash -/
+theorem negOne_some (np opt : Str) (h : opt.head? = some '-') : ∃ n, negOne np opt = some n := by
+  unfold negOne
+  by_cases hd : opt.contains '.' = true
+  · have hm : '.' ∈ opt := by simpa using hd
+    obtain ⟨a, b, r, he⟩ := splitOnChar_two '.' opt hm
+    simp only [hd, if_true, he]
+    exact ⟨_, rfl⟩
+  · simp only [hd, Bool.false_eq_true, if_false, h, if_true]
+    exact ⟨_, rfl⟩
+
+theorem negLoop_some (np : Str) : ∀ (opts acc : List Str), (∀ o ∈ opts, o.head? = some '-') →
+    ∃ l, negLoop np acc opts = some l
+  | [], acc, _ => ⟨acc, rfl⟩
+  | o :: os, acc, h => by
+    obtain ⟨n, hn⟩ := negOne_some np o (h o (by simp))
+    have hos : ∀ o' ∈ os, o'.head? = some '-' := fun o' ho' => h o' (by simp [ho'])
+    simp only [negLoop, hn]
+    split
+    · exact negLoop_some np os _ hos
+    · split
+      · exact negLoop_some np os _ hos
+      · exact negLoop_some np os _ hos
+
+theorem positives_head (cfg : Cfg) (x : XLeaf) (pref : Str) (s : Str) (hs : s ∈ positives cfg x pref) :
+    s.head? = some '-' :=
+  optionList_head cfg (x.fw pref) rfl s ((mem_dedup _ _).mp ((positives_ok cfg x pref).subset hs))
+
+/-- the `NotImplementedError` arm of `BooleanOptionalAction` is never taken -/
+theorem mkEntry_some (cfg : Cfg) (src : Sources) (x : XLeaf) (pref : Str) :
+    ∃ e, mkEntry src (positives cfg) x pref = some e := by
+  unfold mkEntry
+  by_cases hb : x.leaf.ty = .bool
+  · obtain ⟨l, hl⟩ := negLoop_some negPrefix (positives cfg x pref) [] (positives_head cfg x pref)
+    simp only [hb, if_true, negStrings, hl]
+    exact ⟨_, rfl⟩
+  · simp only [hb, if_false]
+    exact ⟨_, rfl⟩
+
+theorem mkAll_some (cfg : Cfg) (src : Sources) : ∀ (xs : List XLeaf) (rs : List FieldRec),
+    ∃ es, mkAll src (positives cfg) xs rs = some es
+  | [], rs => by cases rs <;> exact ⟨[], by simp [mkAll]⟩
+  | _ :: _, [] => ⟨[], by simp [mkAll]⟩
+  | x :: xs, r :: rs => by
+    obtain ⟨e, he⟩ := mkEntry_some cfg src x r.pref
+    obtain ⟨es, hes⟩ := mkAll_some cfg src xs rs
+    exact ⟨e :: es, by simp [mkAll, he, hes]⟩
+
+/-- the full statement of "`--help` exits with status 0": setting up the parser either succeeds or
+    is refused by the conflict resolver with its own error -/
+def Produced : Prop :=
+  ∀ (cfg : Cfg) (mode : CR) (forest : Forest) (src : Sources), mode ≠ .always_merge →
+    (∃ es, entries cfg mode forest src = .ok es) ∨ entries cfg mode forest src = .conflictResolutionError
+
+/-- `h: int = 3` registered at `a` -/
+def helpClashForest : Forest :=
+  [(.node "K0".toList "a".toList
+      [{ name := "h".toList, ty := .int, dflt := some "3".toList, aliases := [] }] [] [], [])]
+
+/-- `flag: bool = False; noflag: int = 0` registered at `a` -/
+def negClashForest : Forest :=
+  [(.node "K0".toList "a".toList
+      [{ name := "flag".toList, ty := .bool, dflt := some "False".toList, aliases := [] },
+       { name := "noflag".toList, ty := .int, dflt := some "0".toList, aliases := [] }] [] [], [])]
+
+def cfgPlain0 : Cfg := { dash := .underscore, gen := .flat, nest := .default }
+
+/-- **finding C16-help-clash** (root: conflicts.py:144 TODO #49, as C03-help-clash): a field named `h`
+    collides with the built-in `-h`; `_preprocessing` dies with `argparse.ArgumentError`, so
+    `--help` prints a traceback instead of the help. -/
+theorem c16_produced_witness : ¬ Produced := by
+  intro h
+  have e : entries cfgPlain0 .auto helpClashForest { inst := [], files := [] } = .argumentError := by
+    decide
+  rcases h cfgPlain0 .auto helpClashForest { inst := [], files := [] } (by decide) with ⟨es, h⟩ | h <;>
+    rw [e] at h <;> cases h
+
+/-- **finding C16-negflag-clash** (same root): the negative flag `--noflag` of `flag: bool` collides
+    with the field `noflag`; the resolver never sees negative flags, `add_argument` raises
+    `argparse.ArgumentError`. -/
+theorem c16_produced_witness_negflag :
+    entries cfgPlain0 .auto negClashForest { inst := [], files := [] } = .argumentError := by decide
+
+/-- **C16 (produced, partial).** Outside ALWAYS_MERGE (C11) and unless an option string collides
+    with one that is already taken (`-h` / `--help`, or a negative flag against another field —
+    the two findings above; decidable: the outcome is `argumentError`), the entries are produced or
+    the conflict resolver refuses with `ConflictResolutionError`: no `AssertionError`, no
+    `NotImplementedError`, for any forest, configuration and default sources. -/
+theorem c16_produced_partial (cfg : Cfg) (mode : CR) (forest : Forest) (src : Sources)
+    (hm : mode ≠ .always_merge) (hc : entries cfg mode forest src ≠ .argumentError) :
+    (∃ es, entries cfg mode forest src = .ok es) ∨
+      entries cfg mode forest src = .conflictResolutionError := by
+  unfold entries at hc ⊢
+  rw [entriesWith_eq] at hc ⊢
+  cases hs : setup cfg mode reserved ((wrappers forest).map XLeaf.rec0) with
+  | conflictResolutionError => right; rfl
+  | argumentError => rw [hs] at hc; exact absurd rfl hc
+  | assertionError =>
+    exfalso
+    unfold setup at hs
+    cases hr : resolve cfg mode ((wrappers forest).map XLeaf.rec0) with
+    | err e =>
+      cases e with
+      | conflictResolutionError => rw [hr] at hs; cases hs
+      | assertionError => exact C03.c03_total cfg mode hm _ hr
+    | ok r =>
+      rw [hr] at hs
+      simp only at hs
+      split at hs <;> cases hs
+  | ok recs =>
+    rw [hs] at hc
+    simp only at hc ⊢
+    obtain ⟨es, hes⟩ := mkAll_some cfg src (wrappers forest) recs
+    rw [hes] at hc ⊢
+    simp only [finish] at hc ⊢
+    split
+    · rename_i hcl
+      simp [hcl] at hc
+    · exact .inl ⟨es, rfl⟩
+
+/-- the hypotheses hold on a non-trivial forest (see `sampleForest` below for one with members) -/
+example : entries cfgPlain0 .auto
+    [(.node "K0".toList "a".toList
+      [{ name := "v".toList, ty := .bool, dflt := none, aliases := ["--vv".toList] },
+       { name := "x".toList, ty := .int, dflt := some "1".toList, aliases := [] }] [] [], [])]
+    { inst := [], files := [] } ≠ .argumentError := by decide
 
 /-! ### hidden fields -/
 
@@ -357,15 +625,19 @@ theorem xleaves_map_eraseHidden (gs : List Group) :
 mutual
 theorem flat_eraseHidden (parent : Str) (level : Nat) (pref : Str) :
     ∀ t : Tree, flat parent level pref t.eraseHidden = (flat parent level pref t).map Group.eraseHidden
-  | .node cls name leaves over kids => by
+  | .node cls name leaves over kids cmd => by
     simp only [Tree.eraseHidden, flat, List.map_cons, Group.eraseHidden]
     rw [flatKids_eraseHidden]
 theorem flatKids_eraseHidden (parent : Str) (level : Nat) :
     ∀ ts : List Tree, flatKids parent level (eraseKids ts) = (flatKids parent level ts).map Group.eraseHidden
   | [] => rfl
   | t :: ts => by
-    simp only [eraseKids, flatKids, List.map_append]
-    rw [flat_eraseHidden, flatKids_eraseHidden]
+    have he : t.eraseHidden.exposed = t.exposed := by cases t; rfl
+    by_cases hx : t.exposed = true
+    · simp only [eraseKids, flatKids, hx, if_true, he, List.map_append]
+      rw [flat_eraseHidden, flatKids_eraseHidden]
+    · simp only [eraseKids, flatKids, hx, if_false, List.nil_append, Bool.false_eq_true]
+      rw [flatKids_eraseHidden]
 end
 
 /-- the forest with every `cmd=False` / `init=False` field deleted from every class -/
@@ -588,23 +860,10 @@ theorem c16_perm_invariant (cfg : Cfg) (mode : CR) (forest : Forest) (src : Sour
   obtain ⟨recs, hs, hrl, _, _⟩ := c16_complete cfg mode forest src es h
   refine ⟨recs, hs, ?_⟩
   intro i x hx
-  unfold entries entriesWith entriesOfGroups at h
-  simp only at h
-  change (match setup cfg mode reserved ((wrappers forest).map XLeaf.rec0) with
-    | .ok recs => (match mkAll src (positives cfg) (wrappers forest) recs with
-        | some es => Out.ok es | none => Out.notImplementedError)
-    | .conflictResolutionError => Out.conflictResolutionError
-    | .assertionError => Out.assertionError
-    | .argumentError => Out.argumentError) = Out.ok es at h
-  rw [hs] at h
-  simp only at h
-  cases hm : mkAll src (positives cfg) (wrappers forest) recs with
-  | none => rw [hm] at h; cases h
-  | some es' =>
-    rw [hm] at h
-    simp only [Out.ok.injEq] at h
-    subst h
-    have hi' : i < recs.length := by
+  obtain ⟨recs', hs', hm, _⟩ := entriesWith_ok cfg mode forest src (positives cfg) es h
+  rw [hs] at hs'
+  cases hs'
+  · have hi' : i < recs.length := by
       rw [hrl]
       rcases Nat.lt_or_ge i (wrappers forest).length with h | h
       · exact h
@@ -668,20 +927,8 @@ theorem c16_perm_invariant_partial (cfg : Cfg) (mode : CR) (forest : Forest) (sr
     (π₁ π₂ : List Str → List Str) (h₁ : PermFn π₁) (h₂ : PermFn π₂)
     (hd : equalLengthTie cfg mode forest = false) :
     entriesSetOrder cfg mode forest src π₁ = entriesSetOrder cfg mode forest src π₂ := by
-  unfold entriesSetOrder entriesWith entriesOfGroups
-  simp only
-  change (match setup cfg mode reserved ((wrappers forest).map XLeaf.rec0) with
-    | .ok recs => (match mkAll src (positivesSet cfg π₁) (wrappers forest) recs with
-        | some es => Out.ok es | none => Out.notImplementedError)
-    | .conflictResolutionError => Out.conflictResolutionError
-    | .assertionError => Out.assertionError
-    | .argumentError => Out.argumentError) =
-    (match setup cfg mode reserved ((wrappers forest).map XLeaf.rec0) with
-    | .ok recs => (match mkAll src (positivesSet cfg π₂) (wrappers forest) recs with
-        | some es => Out.ok es | none => Out.notImplementedError)
-    | .conflictResolutionError => Out.conflictResolutionError
-    | .assertionError => Out.assertionError
-    | .argumentError => Out.argumentError)
+  unfold entriesSetOrder
+  rw [entriesWith_eq, entriesWith_eq]
   unfold equalLengthTie at hd
   cases hs : setup cfg mode reserved ((wrappers forest).map XLeaf.rec0) with
   | conflictResolutionError => rfl
@@ -802,6 +1049,61 @@ theorem c16_no_side_effect_entries {R : Type} (run : Out → List Str → R) (cf
       = (Parser.parse run (helpParser cfg mode forest src argvFiles names) args).1 :=
   c16_no_side_effect_partial run _ args rfl (by simp [helpParser, hfiles]) (fun _ _ _ _ => rfl)
 
+/-! ### the `--help` FLAG route -/
+
+/-- the full statement for `parse_args([..., "--help"])` (caught `SystemExit`) followed by another
+    parse on the same parser object -/
+def NoSideEffectDashHelp : Prop :=
+  ∀ (T R : Type) (run : T → List Str → R) (p : Parser T) (a₁ a₂ : List Str),
+    p.table = none → p.ctorApplied = false → p.argvApplied = false →
+    (Parser.parse run (p.dashHelp a₁) a₂).1 = (Parser.parse run p a₂).1
+
+/-- **finding C16-print-help-before-argv-config, `--help` route**: `parse_args(["--help"])` builds the
+    table; a later `parse_args(["--config_path", f])` on the same parser runs on default `3` where a
+    fresh parser gives `9` (here: a command line names a file iff it is non-empty). -/
+theorem c16_no_side_effect_dash_help_witness : ¬ NoSideEffectDashHelp := by
+  intro h
+  have := h Out Out (fun t _ => t)
+    (helpParser cfgPlain .auto witnessFileForest witnessNoFileSources [witnessFile]
+      (fun a => !a.isEmpty)) [] ["--config_path".toList] rfl rfl rfl
+  revert this
+  decide
+
+/-- the other direction: `--config_path f --help` first, then a parse that names no file, keeps `9` -/
+example : (Parser.parse (fun t _ => t)
+      ((helpParser cfgPlain .auto witnessFileForest witnessNoFileSources [witnessFile]
+        (fun a => !a.isEmpty)).dashHelp ["--config_path".toList]) []).1
+    ≠ (Parser.parse (fun t _ => t)
+      (helpParser cfgPlain .auto witnessFileForest witnessNoFileSources [witnessFile]
+        (fun a => !a.isEmpty)) ([] : List Str)).1 := by decide
+
+/-- **C16 (no side effect of the `--help` flag, partial).** If the command line that carried
+    `--help` and the later command line agree on whether they name config files, and the table
+    does not depend on the arguments (no subgroup fields), the later parse returns what a fresh
+    parser returns — with or without constructor config files: unlike the old `print_help()`, the
+    flag route always applied them first. -/
+theorem c16_no_side_effect_dash_help_partial {T R : Type} (run : T → List Str → R) (p : Parser T)
+    (a₁ a₂ : List Str) (ht : p.table = none) (hn : p.namesFiles a₁ = p.namesFiles a₂)
+    (hsub : ∀ b c x y, p.build b c x = p.build b c y) :
+    (Parser.parse run (p.dashHelp a₁) a₂).1 = (Parser.parse run p a₂).1 := by
+  simp [Parser.parse, Parser.dashHelp, Parser.prep, ht, hn,
+    hsub (p.ctorApplied || p.hasCtorFiles) (p.argvApplied || p.namesFiles a₂) a₁ a₂]
+
+theorem c16_no_side_effect_dash_help_entries {R : Type} (run : Out → List Str → R) (cfg : Cfg) (mode : CR)
+    (forest : Forest) (src : Sources) (argvFiles : List (List (Str × Str))) (names : List Str → Bool)
+    (a₁ a₂ : List Str) (hn : names a₁ = names a₂) :
+    (Parser.parse run ((helpParser cfg mode forest src argvFiles names).dashHelp a₁) a₂).1
+      = (Parser.parse run (helpParser cfg mode forest src argvFiles names) a₂).1 :=
+  c16_no_side_effect_dash_help_partial run _ a₁ a₂ rfl (by simpa [helpParser] using hn)
+    (fun _ _ _ _ => rfl)
+
+/-- non-trivial instance: constructor files present, both command lines name none -/
+example : (Parser.parse (fun t _ => t)
+      ((helpParser cfgPlain .auto witnessFileForest witnessFileSources).dashHelp []) []).1
+    = (Parser.parse (fun t _ => t)
+      (helpParser cfgPlain .auto witnessFileForest witnessFileSources) ([] : List Str)).1 :=
+  c16_no_side_effect_dash_help_entries _ _ _ _ _ _ _ _ _ rfl
+
 /-- a second `print_help()` / a `print_help()` after a parse never rebuilds the table -/
 theorem printHelp_after_table {T : Type} (p : Parser T) (t : T) (h : p.table = some t) :
     p.printHelp = p := by
@@ -879,6 +1181,21 @@ example : ("cfg.secret".toList, sampleHidden) ∈ declared (flatForest sampleFor
 
 example : ∃ recs, setup cfgBoth .auto reserved ((wrappers sampleForest).map XLeaf.rec0) = .ok recs ∧
     recs.length = 3 := ⟨_, rfl, rfl⟩
+
+/-- a `cmd=False` MEMBER hides its whole subtree: no group, no entry, and `eraseHiddenForest` deletes it -/
+def hiddenMemberForest : Forest :=
+  [(.node "K1".toList "cfg".toList
+      [{ name := "n".toList, ty := .int, dflt := some "2".toList, aliases := [] }] []
+      [.node "K0".toList "m".toList
+        [{ name := "lr".toList, ty := .float, dflt := some "0.5".toList, aliases := [] }] [] [] false,
+       .node "K0".toList "k".toList
+        [{ name := "lr".toList, ty := .float, dflt := some "0.5".toList, aliases := [] }] [] []], [])]
+
+example : (flatForest hiddenMemberForest).map (·.dest) = ["cfg".toList, "cfg.k".toList]
+    ∧ (flatForest (eraseHiddenForest hiddenMemberForest)).length = 2
+    ∧ ∃ es, entries cfgBoth .auto hiddenMemberForest noSources = .ok es ∧
+        es.map (·.dest) = ["cfg.n".toList, "cfg.k.lr".toList] := by
+  refine ⟨by decide, by decide, _, rfl, by decide⟩
 
 /-- hidden fields really are erased by `eraseHiddenForest` (the statement of `c16_hidden` is not
     about two equal forests) -/
